@@ -219,12 +219,14 @@ theorem pruned_dead (wf : d.WF) {q t : σ} {a : α} (hq : q ∈ d.minifyKept)
 /-- `reachable_final_states`. -/
 abbrev minifyFinals (d : DFA σ α) : List σ := d.finals.filter fun q => decide (q ∈ d.minifyKept)
 
-/-- From every kept state, the refinement system accepts exactly the right language of
-that state in `d`. -/
-theorem prepass_right_lang (wf : d.WF) {q : σ} (hq : q ∈ d.minifyKept) (w : List α) :
-    mfin d.minifyFinals (mrun d.minifyKept d.trans (some q) w) = d.isFinal (d.run (some q) w) := by
+/-- From every kept state, the refinement system (with any final-state list that agrees with
+`d.finals` on the kept states) accepts exactly the right language of that state in `d`. -/
+theorem prepass_right_lang' (wf : d.WF) {fin : List σ}
+    (hfin : ∀ q ∈ d.minifyKept, (q ∈ fin ↔ q ∈ d.finals)) {q : σ} (hq : q ∈ d.minifyKept)
+    (w : List α) :
+    mfin fin (mrun d.minifyKept d.trans (some q) w) = d.isFinal (d.run (some q) w) := by
   induction w generalizing q with
-  | nil => simp [mfin, isFinal, List.mem_filter, hq]
+  | nil => simp [mfin, isFinal, hfin q hq]
   | cons a w ih =>
     rw [mrun_cons_eq, run_cons]
     cases hs : d.step? (some q) a with
@@ -243,6 +245,10 @@ theorem prepass_right_lang (wf : d.WF) {q : σ} (hq : q ∈ d.minifyKept) (w : L
         cases hf : d.isFinal (d.run (some t) w) with
         | false => rfl
         | true => exact absurd ⟨w, hf⟩ hd
+
+theorem prepass_right_lang (wf : d.WF) {q : σ} (hq : q ∈ d.minifyKept) (w : List α) :
+    mfin d.minifyFinals (mrun d.minifyKept d.trans (some q) w) = d.isFinal (d.run (some q) w) :=
+  prepass_right_lang' wf (fun q hq => by simp [List.mem_filter, hq]) hq w
 
 /-- **3. Language of the pre-pass**: the system handed to `_minify` accepts `d`'s language. -/
 theorem prepass_accepts (wf : d.WF) (w : List α) :
